@@ -29,9 +29,17 @@ var (
 	c17Err   = errors.New("exec-error-result")
 )
 
+// errPayload is a perfectly good payload whose type happens to have an Error() method.
+type errPayload struct{ code int }
+
+func (e *errPayload) Error() string { return fmt.Sprintf("code %d", e.code) }
+
+var c17ErrVal = &errPayload{code: 7}
+
 func c17Payloads() []any {
 	return []any{nil, 7, "s", c17Ptr, c17Map, c17Slice, stT{A: 1, B: []string{"b"}},
-		(*payloadT)(nil), map[string]any(nil), []int(nil), 0, "", false} // typed nils and zero values keep their dynamic type
+		(*payloadT)(nil), map[string]any(nil), []int(nil), 0, "", false,
+		c17ErrVal} // a value whose type implements error is still a value when returned with a nil error // typed nils and zero values keep their dynamic type
 }
 
 func styleScenario(prepR, execR, postR, builder, inFlow bool) Scenario {
@@ -206,6 +214,16 @@ func genC17(tier string) []Scenario {
 		return []answer{{val: okVal(i)}, {val: errResultMarker{err: itemErr(i, k)}}, {err: itemErr(i, k)}, {val: nil}}
 	}
 	anyMenu := func(i, k int) []answer { return []answer{{val: okVal(i)}, {err: itemErr(i, k)}, {val: nil}} }
+	errValMenu := func(i, k int) []answer { return []answer{{val: okVal(i)}, {val: c17ErrVal}, {err: itemErr(i, k)}} }
+	for _, c := range []int{0, 2} {
+		sc := batchScn{name: fmt.Sprintf("styles-batch-error-typed-value n=2 c=%d anyExec=true", c), n: 2, c: c, budget: 1, shape: shResults, yield: c > 0, anyExec: true,
+			execMenu: errValMenu, postMenu: postX, bound: 0, chkPositional: true}
+		out = append(out, sc.scenario())
+		// stop mode: an item that completed keeps its own result whatever happened to its neighbours
+		sc2 := batchScn{name: fmt.Sprintf("styles-batch-stopmode n=3 c=%d", c), n: 3, c: c, stop: true, budget: 1, shape: shResults, yield: c > 0,
+			execMenu: okOrErrMenu, postMenu: postX, bound: 1, chkPositional: true}
+		out = append(out, sc2.scenario())
+	}
 	for _, c := range []int{0, 2} {
 		for _, anyExec := range []bool{false, true} {
 			menu := errResMenu
